@@ -13,7 +13,7 @@ def run(tier):
     work = os.path.join(c.scratch, "work")
     os.makedirs(work, exist_ok=True)
     works = []
-    for k, sd in enumerate(vlib.seeds(tier, 4)):
+    for k, sd in enumerate(vlib.seeds(tier, 8)):
         w = os.path.join(work, "r%d" % k)
         os.makedirs(w, exist_ok=True)
         works.append(["@OUT", tier, sd, w])
